@@ -1,5 +1,193 @@
 import Ptn.C01.Model
-/-! Line-protocol handler for the C01 model (core Lean only). -/
+/-! Line-protocol handler for the C01 model (core Lean only).
+
+Request body (after the command word), space separated:
+
+  `<n>  <parent of node 0 … n-1, root = -1>  <children of node 0 … n-1 in reference order, joined by '.', '-' if none>
+   <operator dimension of node 0 … n-1>  <T>  then per term: <num> <den> <sym> <k> (<site> <label>)*k`
+
+  denote  … → canonical formal sum denoted by the uncompressed (BASE) diagram of the model
+  ham     … → canonical formal sum of the identity-padded Hamiltonian itself
+  diagram … → the BASE diagram: per node (index order) `<i>=<label>|<num>/<den>|<gamma>|<vertex positions toward
+              parent, children…, joined by '.'>` hyperedges joined by ',', nodes joined by ';', then `;` and the
+              edges `<parent>-<child>:<number of vertices>` joined by ','
+  single <j> … → canonical formal sum denoted by the single-term diagram of term number j
+
+Canonical formal sum: summands `<num>/<den>*<sym>:<label of node 0>,…,<label of node n-1>` with equal
+(assignment, symbols) merged and zero coefficients dropped, sorted by (labels, symbols), joined by ' '; `0` if empty.
+Malformed requests answer `bad-op`. -/
 namespace Ptn.C01
-def handle (args : List String) : String := "bad-op"
+
+structure Req where
+  n : Nat
+  tree : RTree
+  par : List Int
+  terms : List Term
+
+def parseKids (s : String) : Option (List Nat) :=
+  if s = "-" then some [] else (s.splitOn ".").mapM String.toNat?
+
+/-- Build the tree below node `i` (fuel bounds the depth; a cycle exhausts it). -/
+def buildTree (kids : Array (List Nat)) (dims : Array Nat) : Nat → Nat → Option RTree
+  | 0, _ => none
+  | fuel + 1, i =>
+    match kids[i]?, dims[i]? with
+    | some ks, some d =>
+      match ks.mapM (buildTree kids dims fuel) with
+      | some ts => some (.node i d ts)
+      | none => none
+    | _, _ => none
+
+def takeN {α : Type} (n : Nat) (l : List α) : Option (List α × List α) :=
+  if l.length < n then none else some (l.take n, l.drop n)
+
+def parseOps : Nat → List String → Option (List (Nat × String) × List String)
+  | 0, rest => some ([], rest)
+  | k + 1, s :: l :: rest =>
+    match s.toNat?, parseOps k rest with
+    | some i, some (ops, rest') => some ((i, l) :: ops, rest')
+    | _, _ => none
+  | _ + 1, _ => none
+
+def parseTerms (n : Nat) : Nat → List String → Option (List Term)
+  | 0, [] => some []
+  | 0, _ :: _ => none
+  | t + 1, num :: den :: sym :: k :: rest =>
+    match num.toInt?, den.toNat?, k.toNat? with
+    | some a, some b, some kk =>
+      if b = 0 then none else
+      match parseOps kk rest with
+      | some (ops, rest') =>
+        let sites := ops.map Prod.fst
+        if sites.all (· < n) && sites.eraseDups.length == sites.length then
+          match parseTerms n t rest' with
+          | some ts => some (⟨mkRat a b, sym, ops⟩ :: ts)
+          | none => none
+        else none
+      | none => none
+    | _, _, _ => none
+  | _ + 1, _ => none
+
+def parseReq (args : List String) : Option Req :=
+  match args with
+  | [] => none
+  | ns :: rest =>
+    match ns.toNat? with
+    | none => none
+    | some n =>
+      if n = 0 then none else
+      match takeN n rest with
+      | none => none
+      | some (ps, rest1) =>
+        match takeN n rest1 with
+        | none => none
+        | some (ks, rest2) =>
+          match takeN n rest2 with
+          | none => none
+          | some (ds, rest3) =>
+            match ps.mapM String.toInt?, ks.mapM parseKids, ds.mapM String.toNat?, rest3 with
+            | some par, some kids, some dims, ts :: rest4 =>
+              -- consistency of parents and child lists
+              let okKids := (List.range n).all fun i =>
+                let want := (List.range n).filter fun c => par.getD c 0 == (i : Int)
+                let got := kids.getD i []
+                got.length == want.length && want.all (got.contains ·) && got.all (· < n)
+              let roots := (List.range n).filter fun c => par.getD c 0 == -1
+              match roots, ts.toNat? with
+              | [r], some t =>
+                if !okKids || t = 0 then none else
+                match buildTree kids.toArray dims.toArray (n + 1) r, parseTerms n t rest4 with
+                | some tree, some terms =>
+                  if tree.ids.length = n then some ⟨n, tree, par, terms⟩ else none
+                | _, _ => none
+              | _, _ => none
+            | _, _, _, _ => none
+
+/-! ### canonical output -/
+
+def ratStr (q : Rat) : String := s!"{q.num}/{q.den}"
+
+def symStr (syms : List String) : String := if syms.isEmpty then "1" else ".".intercalate syms
+
+/-- Labels in node-index order (every node occurs exactly once in a well-formed assignment). -/
+def labelsOf (n : Nat) (asg : List (Nat × String)) : List String :=
+  (List.range n).map fun i => (asg.lookup i).getD "?"
+
+def ltLabels : List String → List String → Bool
+  | [], [] => false
+  | [], _ :: _ => true
+  | _ :: _, [] => false
+  | a :: as, b :: bs => if a < b then true else if b < a then false else ltLabels as bs
+
+def keyLt (x y : List String × String) : Bool :=
+  if ltLabels x.1 y.1 then true else if ltLabels y.1 x.1 then false else decide (x.2 < y.2)
+
+def insertKey (k : List String × String) (c : Rat) :
+    List ((List String × String) × Rat) → List ((List String × String) × Rat)
+  | [] => [(k, c)]
+  | (k', c') :: rest =>
+    if k = k' then (k', c' + c) :: rest
+    else if keyLt k k' then (k, c) :: (k', c') :: rest
+    else (k', c') :: insertKey k c rest
+
+def canonFSum (n : Nat) (fs : FSum) : String :=
+  let merged := fs.foldl (fun acc m => insertKey (labelsOf n m.asg, symStr m.syms) m.coef acc) []
+  let kept := merged.filter fun kc => kc.2 != 0
+  if kept.isEmpty then "0" else
+    " ".intercalate (kept.map fun kc => s!"{ratStr kc.2}*{kc.1.2}:{",".intercalate kc.1.1}")
+
+-- All nodes of a diagram with the identifier of their parent.
+mutual
+def flattenSD (parent : Option Nat) : SD → List (Nat × Option Nat × Nat × List HE)
+  | .node i nv hes kids => (i, parent, nv, hes) :: flattenKids (some i) kids
+def flattenKids (parent : Option Nat) : List SD → List (Nat × Option Nat × Nat × List HE)
+  | [] => []
+  | k :: ks => flattenSD parent k ++ flattenKids parent ks
+end
+
+def heStr (h : HE) : String :=
+  let pos := (match h.pv with | some p => [p] | none => []) ++ h.kv
+  s!"{h.label}|{ratStr h.lam}|{h.gam}|{".".intercalate (pos.map toString)}"
+
+def diagramStr (n : Nat) (d : SD) : String :=
+  let flat := flattenSD none d
+  let nodes := (List.range n).map fun i =>
+    match flat.find? (fun x => x.1 == i) with
+    | some (_, _, _, hes) => s!"{i}=" ++ ",".intercalate (hes.map heStr)
+    | none => s!"{i}=?"
+  let edges := (List.range n).filterMap fun i =>
+    match flat.find? (fun x => x.1 == i) with
+    | some (_, some p, nv, _) => some s!"{p}-{i}:{nv}"
+    | _ => none
+  ";".intercalate nodes ++ ";" ++ ",".intercalate edges
+
+def handle (args : List String) : String :=
+  match args with
+  | "denote" :: body =>
+    match parseReq body with
+    | some r =>
+      match baseDiagram r.tree r.terms with
+      | some d => canonFSum r.n (sdDenote d)
+      | none => "bad-op"
+    | none => "bad-op"
+  | "ham" :: body =>
+    match parseReq body with
+    | some r => canonFSum r.n (hamDenote r.tree r.terms)
+    | none => "bad-op"
+  | "diagram" :: body =>
+    match parseReq body with
+    | some r =>
+      match baseDiagram r.tree r.terms with
+      | some d => diagramStr r.n d
+      | none => "bad-op"
+    | none => "bad-op"
+  | "single" :: j :: body =>
+    match j.toNat?, parseReq body with
+    | some jj, some r =>
+      match r.terms[jj]? with
+      | some tm => canonFSum r.n (sdDenote (singleTerm r.tree tm))
+      | none => "bad-op"
+    | _, _ => "bad-op"
+  | _ => "bad-op"
+
 end Ptn.C01
